@@ -205,7 +205,7 @@ func (dlv *Delivery) ValidateWithContext(ctx context.Context) error {
 			validation.Required,
 			cal.DateNotZero(),
 		),
-		validation.Field(&dlv.ValueDate),
+		validation.Field(&dlv.ValueDate, cal.DateNotZero()),
 		validation.Field(&dlv.Currency,
 			currency.CanConvertInto(dlv.ExchangeRates, r.GetCurrency()),
 		),
@@ -215,8 +215,8 @@ func (dlv *Delivery) ValidateWithContext(ctx context.Context) error {
 		validation.Field(&dlv.Preceding),
 
 		validation.Field(&dlv.Tracking),
-		validation.Field(&dlv.DespatchDate),
-		validation.Field(&dlv.ReceiveDate),
+		validation.Field(&dlv.DespatchDate, cal.DateNotZero()),
+		validation.Field(&dlv.ReceiveDate, cal.DateNotZero()),
 
 		validation.Field(&dlv.Tax),
 
